@@ -76,7 +76,7 @@ theorem validate_shape {c : Ctx} {w : Weighting} {t : Tx} (h : t.validate c w = 
     nodupB t.ins = true ∧ nodupB t.outs = true ∧ (∀ i ∈ t.ins, i ∉ t.outs) ∧ t.balanced c.outs = true := by
   unfold Tx.validate at h
   repeat (split at h; · simp at h)
-  rename_i _ _ _ h4 h5 _ _ _ h9
+  rename_i _ _ _ h4 _ h5 _ _ _ h9
   simp only [Bool.not_eq_eq_eq_not, Bool.not_true, Bool.and_eq_false_imp,
     Bool.and_eq_true] at h4
   simp only [Bool.or_eq_true, Bool.not_eq_eq_eq_not, Bool.not_true, not_or, Bool.not_eq_true,
